@@ -3,6 +3,8 @@
 From JT Require Import model.PyL gen.CheckDimsSrc.
 From Coq Require Import Lia.
 Open Scope string_scope.
+(* the generated term may change with the source: a proof step that no longer goes through must fail fast, not hang the build *)
+Set Default Timeout 60.
 
 Definition loop_body : list pstmt :=
   match check_dims_src with [_; SForZip _ _ _ _ b; _] => b | _ => [] end.
@@ -11,7 +13,7 @@ Ltac fin := eexists; split; [reflexivity | split; cbn; solve [assumption | refle
 Ltac go Hs Ha := repeat (progress (cbn; rewrite ?Hs, ?Ha)).
 
 Section Refine.
-Variables (lbl : option string) (st : symtab) (args : alist Z).
+Variables (lbl : option string) (st : symtab) (args : alist Z) (call : string -> list pval -> option (pres * list pval)).
 
 Definition good (env : penv) (sm : alist Z) : Prop :=
   env "single_memo" = Some (VSingle sm) /\ env "arg_memo" = Some (VArgs args).
@@ -19,9 +21,9 @@ Definition good (env : penv) (sm : alist Z) : Prop :=
 Lemma body_step env d z sm : good env sm -> is_variadic d = false ->
   let env1 := upd (upd env "cls_dim" (VDim d)) "obj_size" (VZ z) in
   match dim_step lbl st args d z sm with
-  | SCont sm1 => exists env2, exec_list lbl st loop_body env1 = ONormal env2 /\ good env2 sm1
-  | SFail => exists env2, exec_list lbl st loop_body env1 = OReturn (VS "msg") env2 /\ good env2 sm
-  | SRaise e => exists env2, exec_list lbl st loop_body env1 = ORaise e env2 /\ good env2 sm
+  | SCont sm1 => exists env2, exec_list lbl st call loop_body env1 = ONormal env2 /\ good env2 sm1
+  | SFail => exists env2, exec_list lbl st call loop_body env1 = OReturn (VS "msg") env2 /\ good env2 sm
+  | SRaise e => exists env2, exec_list lbl st call loop_body env1 = ORaise e env2 /\ good env2 sm
   end.
 Proof.
   intros [Hs Ha] Hv env1. unfold loop_body. cbn [check_dims_src]. subst env1.
@@ -44,9 +46,9 @@ Proof.
 Qed.
 
 Lemma exec_forzip x y a b body env :
-  exec lbl st (SForZip x y a b body) env =
+  exec lbl st call (SForZip x y a b body) env =
   match evale lbl env a, evale lbl env b with
-  | RVal (VDims l1), RVal (VZs l2) => for_zip (exec_list lbl st body) x y l1 l2 env
+  | RVal (VDims l1), RVal (VZs l2) => for_zip (exec_list lbl st call body) x y l1 l2 env
   | RExn ex, _ => ORaise ex env
   | _, RExn ex => ORaise ex env
   | _, _ => ORaise OtherExc env
@@ -56,9 +58,9 @@ Proof. reflexivity. Qed.
 Lemma loop_refines dl : forall sh sm env, good env sm -> length dl = length sh ->
   forallb (fun d => negb (is_variadic d)) dl = true ->
   match check_dims lbl st args dl sh sm with
-  | (COk, sm') => exists env2, for_zip (exec_list lbl st loop_body) "cls_dim" "obj_size" dl sh env = ONormal env2 /\ good env2 sm'
-  | (CFail, sm') => exists env2, for_zip (exec_list lbl st loop_body) "cls_dim" "obj_size" dl sh env = OReturn (VS "msg") env2 /\ good env2 sm'
-  | (CRaise e, sm') => exists env2, for_zip (exec_list lbl st loop_body) "cls_dim" "obj_size" dl sh env = ORaise e env2 /\ good env2 sm'
+  | (COk, sm') => exists env2, for_zip (exec_list lbl st call loop_body) "cls_dim" "obj_size" dl sh env = ONormal env2 /\ good env2 sm'
+  | (CFail, sm') => exists env2, for_zip (exec_list lbl st call loop_body) "cls_dim" "obj_size" dl sh env = OReturn (VS "msg") env2 /\ good env2 sm'
+  | (CRaise e, sm') => exists env2, for_zip (exec_list lbl st call loop_body) "cls_dim" "obj_size" dl sh env = ORaise e env2 /\ good env2 sm'
   end.
 Proof.
   induction dl as [|d dl IH]; intros sh sm env Hg Hlen Hnv; destruct sh as [|z sh]; try discriminate.
@@ -76,17 +78,17 @@ Theorem check_dims_src_refines_model dl sh sm env :
   good env sm -> env "cls_dims" = Some (VDims dl) -> env "obj_shape" = Some (VZs sh) ->
   length dl = length sh -> forallb (fun d => negb (is_variadic d)) dl = true ->
   match check_dims lbl st args dl sh sm with
-  | (COk, sm') => exists env2, run_body lbl st check_dims_src env = OReturn (VS "") env2 /\ good env2 sm'
-  | (CFail, sm') => exists env2, run_body lbl st check_dims_src env = OReturn (VS "msg") env2 /\ good env2 sm'
-  | (CRaise e, sm') => exists env2, run_body lbl st check_dims_src env = ORaise e env2 /\ good env2 sm'
+  | (COk, sm') => exists env2, run_body_with call lbl st check_dims_src env = OReturn (VS "") env2 /\ good env2 sm'
+  | (CFail, sm') => exists env2, run_body_with call lbl st check_dims_src env = OReturn (VS "msg") env2 /\ good env2 sm'
+  | (CRaise e, sm') => exists env2, run_body_with call lbl st check_dims_src env = ORaise e env2 /\ good env2 sm'
   end.
 Proof.
   intros Hg Hd Hs Hlen Hnv. pose proof (loop_refines dl sh sm env Hg Hlen Hnv) as Hl.
-  unfold run_body. change check_dims_src with
+  unfold run_body_with. change check_dims_src with
     [SAssert (PEq (PLen (PVar "cls_dims")) (PLen (PVar "obj_shape")));
      SForZip "cls_dim" "obj_size" (PVar "cls_dims") (PVar "obj_shape") loop_body; SReturn (PStr "")].
   cbn [exec_list].
-  assert (E0 : exec lbl st (SAssert (PEq (PLen (PVar "cls_dims")) (PLen (PVar "obj_shape")))) env = ONormal env).
+  assert (E0 : exec lbl st call (SAssert (PEq (PLen (PVar "cls_dims")) (PLen (PVar "obj_shape")))) env = ONormal env).
   { cbn. rewrite Hd, Hs. cbn. rewrite Hlen, Z.eqb_refl. reflexivity. }
   rewrite E0, exec_forzip. cbn [evale]. rewrite Hd, Hs.
   destruct (check_dims lbl st args dl sh sm) as [[| |e] sm'].
